@@ -31,7 +31,7 @@ META = dict(
                  "idle handlers take a positive amount of time (a zero-time idle handler would spin the loop without "
                  "the virtual clock advancing, which no real handler can do)"],
     probes_expected=["future_head_of_line", "out_of_order_drop", "pool_saturated", "job_in_past", "job_in_future",
-                     "idle_handler_ran", "late_timer", "latency_checked"],
+                     "idle_handler_ran", "late_timer", "latency_checked", "non_utc_datetime"],
     states_measure="distinct (events in flight, jobs in flight, idle in flight) triples at any handler entry",
 )
 
@@ -58,6 +58,7 @@ def run(tape, prop, tier):
         feeders.append(ops)
     pre_jobs = [tape.choice([-3.0, 0.0, 1.0, 2.5]) for _ in range(tape.draw(4))]
     jdurs = [tape.choice([0.0, 0.1, 1.0]) for _ in range(4)]
+    tz_shift = tape.draw(3)
     late = tape.chance(0.6)
     late_seed = tape.subseed()
     salt = tape.draw(1000)
@@ -118,9 +119,15 @@ def run(tape, prop, tier):
                 handlers_of[i].append(hid)
                 d.subscribe(s, mkh(hid))
 
+        zones = [datetime.timezone.utc, datetime.timezone(datetime.timedelta(hours=-5)),
+                 datetime.timezone(datetime.timedelta(hours=5, minutes=30))]
+
         def sched(delta):
             j = len(jobs) + 1
-            when = bdt.utc_now() + datetime.timedelta(seconds=delta)
+            # the same instant, expressed in some time zone: any aware datetime is legal
+            when = (bdt.utc_now() + datetime.timedelta(seconds=delta)).astimezone(zones[(j + tz_shift) % 3])
+            if when.utcoffset():
+                res.probes["non_utc_datetime"] += 1
             jobs[j] = dict(when=when, runs=0, dur=jdurs[j % 4])
             res.probes["job_in_past" if delta < 0 else "job_in_future" if delta > 0 else "job_now"] += 1
 
@@ -155,7 +162,8 @@ def run(tape, prop, tier):
             for gap, delta, job in ops:
                 await asyncio.sleep(gap)
                 S["eid"] += 1
-                ev = SimEvent(bdt.utc_now() + datetime.timedelta(seconds=delta), S["eid"], i)
+                ev = SimEvent((bdt.utc_now() + datetime.timedelta(seconds=delta)).astimezone(zones[(S["eid"] + tz_shift) % 3]),
+                              S["eid"], i)
                 pushed[i].append(ev)
                 srcs[i].push(ev)
                 tr.append(("push", ev.eid, i, delta, loop.time()))
